@@ -254,13 +254,16 @@ def run_shard(shard):
             axes = [None] + [tuple(c) for r in range(1, nd + 1) for c in itertools.combinations(range(3 - nd, 3), r)]
             for axis in axes:
                 for grid in (((1, 1), (2,), (4,)), ((2,), (1, 1), (2, 2)), ((1, 1), (1, 1), (2, 2))):
+                  # the labels are chunked like the array, as a single chunk, or with other boundaries along the last axis
+                  same = grid[3 - nd:]
+                  for lgrid in dict.fromkeys([same, tuple((sum(g),) for g in same), same[:-1] + ((1, 3),)]):
                     for func in ("sum", "nanmax", "count"):
-                        case = dict(api="nd-unknown", labels=name, axis=list(axis) if axis else None, grid=[list(g) for g in grid], func=func)
-                        tags = dict(api="nd-unknown", func=func, labels_dask=True, expected=False)
+                        case = dict(api="nd-unknown", labels=name, axis=list(axis) if axis else None, grid=[list(g) for g in grid], label_grid=[list(g) for g in lgrid], func=func)
+                        tags = dict(api="nd-unknown", func=func, labels_dask=True, expected=False, label_grid_same=lgrid == same)
                         res.evaluations += 1
                         res.states += 1
                         res.transitions += 1
-                        o = e1.call_reduce(da.from_array(arr, chunks=grid), da.from_array(by, chunks=grid[3 - nd:]), func=func, axis=axis, fill_value=-1)
+                        o = e1.call_reduce(da.from_array(arr, chunks=grid), da.from_array(by, chunks=lgrid), func=func, axis=axis, fill_value=-1)
                         if o.kind != "ok":
                             res.outcomes[f"{o.kind}:{o.exc}@{o.where}/{o.origin}"] += 1
                             if o.where == "compute" and o.origin != "flox":
